@@ -25,6 +25,16 @@ def pop_obs(tag):
     return obs
 
 
+def rdfail_obs(tag):
+    """end of a source whose last read failed (directory, I/O error): reported, never taken for an empty file"""
+    obs = []
+    for sc in (0, 1, 2, 3):
+        for own in (1, 0):
+            defs = ["-DMODE=2", "-DSC=%d" % sc, "-DOWN=%d" % own, "-DDEPTH=1", "-DRDFAIL"]
+            obs.append(_ob("%s-rdfail-sc%d-%s" % (tag, sc, "own" if own else "foreign"), defs, ("rdfail",)))
+    return obs
+
+
 def rest_obs(tag, depths=(0,)):
     obs = []
     for sc in (0, 1, 2, 3):
